@@ -369,7 +369,7 @@ class Gen:
 
     def p_arith(self, t, depth):
         rng = self.rng
-        ops = ["+", "-", "*", "/"] + (["%"] if t in (INT, UINT) else [])
+        ops = ["+", "-", "*", "/", "%"]
         op = rng.choice(ops)
         a, b = self.expr(t, depth + 1), self.expr(t, depth + 1)
         if t == UINT and rng.random() < 0.35:
@@ -413,11 +413,7 @@ class Gen:
         f = self.rng.choice(("max", "min"))
         a, b = self.expr(t, depth + 1), self.expr(t, depth + 1)
         if not self.minmax_literal_hazard:
-            # Math.max(<uint>, <integer literal>) is emitted as std::max(uint, int), and a constant operand outside the
-            # int range as std::max(long, int): neither is C++ (listed finding of C16).  The general workload keeps
-            # away from both so that everything else is still executed.
-            if t == UINT and (a.const or b.const):
-                return None
+            # a constant operand whose value is undefined in 32 bits makes the whole evaluation undefined
             if t == INT:
                 for x in (a, b):
                     if x.const:
@@ -1401,6 +1397,7 @@ class Interp:
         if t == DOUBLE:
             try:
                 r = {"+": lambda: a + b, "-": lambda: a - b, "*": lambda: a * b,
+                     "%": lambda: math.fmod(a, b) if (b != 0 and not math.isinf(a)) else math.nan,
                      "/": lambda: (a / b) if b != 0 else (math.copysign(math.inf, a) * math.copysign(1, b) if a != 0 and not math.isnan(a) else math.nan)}[op]()
             except OverflowError:
                 r = math.inf
